@@ -227,12 +227,21 @@ def _gen_rife(rng):
 def _gen_row(rng):
     shape = "equal" if rng.random() < 0.9 else "unequal"
     p = _panel(rng, shape, nmin=1 if rng.random() < 0.1 else 2, nmax=7)
-    if rng.random() < 0.6:
+    via = rng.choice(["class", "class", "factory", "factory-typed"])
+    if rng.random() < 0.65:
         f = rng.choice([["affine", 2.0, 1.0], ["affine", -0.5, 3.0], ["cumsum"], ["cumsum"],
                         ["reverse"]])
-        return {"kind": "row_s2s", "cells": _cells_kind(rng, p), "X": p, "f": f}
-    return {"kind": "row_s2p", "cells": _cells_kind(rng, p), "X": p,
-            "g": rng.choice(["mean", "weighted", "weighted"])}
+        if rng.random() < 0.55:
+            # wrapped transformers whose OUTPUT IS THEIR INPUT OR A VIEW OF IT: every instance must
+            # still get its own result (needs >= 2 distinct instances to tell)
+            n = max(_lens(p))
+            f = rng.choice([["ident"], ["head", rng.randint(1, n)], ["stride2"], ["reverse_view"]])
+            if len(p) < 2:
+                p = p + _panel(rng, "equal", n_inst=rng.choice([1, 2]), n_cols=len(p[0]), n=n) \
+                    if shape == "equal" else p
+        return {"kind": "row_s2s", "cells": _cells_kind(rng, p), "X": p, "f": f, "via": via}
+    return {"kind": "row_s2p", "cells": _cells_kind(rng, p), "X": p, "via": via,
+            "g": rng.choice(["mean", "weighted", "weighted", "first"])}
 
 
 METHODS = ["mean", "median", "constant", "ffill", "bfill", "pad", "backfill", "nearest", "linear",
@@ -407,6 +416,10 @@ def exhaustive_cases():
             out.append(dict(base, kind="slide", w=3))
             out.append(dict(base, kind="row_s2s", f=["affine", -0.5, 3.0]))
             out.append(dict(base, kind="row_s2p", g="weighted"))
+            for via in ("class", "factory", "factory-typed"):
+                for f in (["ident"], ["head", 2], ["stride2"], ["reverse_view"]):
+                    out.append(dict(base, kind="row_s2s", f=f, via=via))
+                out.append(dict(base, kind="row_s2p", g="first", via=via))
             out.append(dict(base, kind="rife", fit=None, feats=["mean", "std", "slope"],
                             n_intervals=2, min_length=None, seed=7))
     return out
@@ -499,6 +512,44 @@ def driver_init():
             self.check_is_fitted()
             return np.asarray(Z, dtype=float)[::-1].copy()
 
+    # the next four return their input or a numpy VIEW of it (no copy, no cast)
+    class Ident(_SeriesToSeriesTransformer):
+        _tags = {"fit-in-transform": True}
+
+        def transform(self, Z, X=None):
+            self.check_is_fitted()
+            return Z
+
+    class Head(_SeriesToSeriesTransformer):
+        _tags = {"fit-in-transform": True}
+
+        def __init__(self, k=1):
+            self.k = k
+            super(Head, self).__init__()
+
+        def transform(self, Z, X=None):
+            self.check_is_fitted()
+            return Z[:self.k]
+
+    class Stride2(_SeriesToSeriesTransformer):
+        _tags = {"fit-in-transform": True}
+
+        def transform(self, Z, X=None):
+            self.check_is_fitted()
+            return Z[::2]
+
+    class ReverseView(_SeriesToSeriesTransformer):
+        _tags = {"fit-in-transform": True}
+
+        def transform(self, Z, X=None):
+            self.check_is_fitted()
+            return Z[::-1]
+
+    class First(_SeriesToPrimitivesTransformer):
+        def transform(self, Z, X=None):
+            self.check_is_fitted()
+            return Z[0]
+
     class Weighted(_SeriesToPrimitivesTransformer):
         def transform(self, Z, X=None):
             self.check_is_fitted()
@@ -507,7 +558,23 @@ def driver_init():
             return np.sum(Z * w, axis=0)
 
     _DOUBLES.update({"affine": Affine, "cumsum": Cumsum, "reverse": Reverse,
-                     "weighted": Weighted})
+                     "weighted": Weighted, "ident": Ident, "head": Head, "stride2": Stride2,
+                     "reverse_view": ReverseView, "first": First})
+
+
+def _row_transformer(case, wrapped, cls, type_name):
+    """the row transformer built directly or through the make_row_transformer factory"""
+    from sktime.transformations.panel.compose import make_row_transformer
+    via = case.get("via", "class")
+    if via == "factory":
+        t = make_row_transformer(wrapped)
+    elif via == "factory-typed":
+        t = make_row_transformer(wrapped, transformer_type=type_name)
+    else:
+        return cls(wrapped)
+    if type(t) is not cls:
+        raise AssertionError("make_row_transformer built a %s" % type(t).__name__)
+    return t
 
 
 ERRS = (ValueError, TypeError, IndexError, KeyError, NotImplementedError, AttributeError,
@@ -571,13 +638,14 @@ def run_impl(case):
             from sktime.transformations.panel.compose import SeriesToSeriesRowTransformer
             f = case["f"]
             d = _DOUBLES[f[0]](*f[1:])
-            return {"panel": _canon_panel(SeriesToSeriesRowTransformer(d).fit(X).transform(X))}
+            t = _row_transformer(case, d, SeriesToSeriesRowTransformer, "series-to-series")
+            return {"panel": _canon_panel(t.fit(X).transform(X))}
         if k == "row_s2p":
             from sktime.transformations.panel.compose import SeriesToPrimitivesRowTransformer
             from sktime.transformations.series.summarize import MeanTransformer
-            d = MeanTransformer() if case["g"] == "mean" else _DOUBLES["weighted"]()
-            return {"panel": _canon_rows(
-                SeriesToPrimitivesRowTransformer(d).fit(X).transform(X))}
+            d = MeanTransformer() if case["g"] == "mean" else _DOUBLES[case["g"]]()
+            t = _row_transformer(case, d, SeriesToPrimitivesRowTransformer, "series-to-primitives")
+            return {"panel": _canon_rows(t.fit(X).transform(X))}
         if k == "impute":
             import pandas as pd
             from sktime.transformations.series.impute import Imputer
@@ -799,13 +867,15 @@ def oracle(case, out):
             return _expect_err(k, out, "unequal-length panel")
         f = case["f"]
         exp = [[_sfun(f, s) for s in row] for row in p]
-        # affine / cumulative sums round in floating point; a reversal must be exact
-        return _cmp_panel(k, out, exp, exact=(f[0] == "reverse"))
+        # affine / cumulative sums round in floating point; selections of values must be exact
+        return _cmp_panel(k, out, exp, exact=(f[0] not in ("affine", "cumsum")))
     if k == "row_s2p":
         if len(set(_lens(p))) != 1:
             return _expect_err(k, out, "unequal-length panel")
         if case["g"] == "mean":
             exp = [[[sum(s, Fr(0)) / len(s) for s in row]] for row in p]
+        elif case["g"] == "first":
+            exp = [[[s[0] for s in row]] for row in p]
         else:
             exp = [[[sum(((t + 1) * x for t, x in enumerate(s)), Fr(0)) for s in row]]
                    for row in p]
@@ -872,7 +942,13 @@ def _sfun(f, s):
             acc += x
             out.append(acc)
         return out
-    return list(reversed(s))
+    if f[0] == "ident":
+        return list(s)
+    if f[0] == "head":
+        return s[:f[1]]
+    if f[0] == "stride2":
+        return s[::2]
+    return list(reversed(s))            # reverse (copy) and reverse_view
 
 
 def _slope(y):
@@ -1192,10 +1268,13 @@ def coq_case(case, out):
     if k == "row_s2s":
         f = case["f"]
         ft = {"affine": lambda: "(SAffine %s %s)" % (_cq(f[1]), _cq(f[2])),
-              "cumsum": lambda: "SCumsum", "reverse": lambda: "SReverse"}[f[0]]()
+              "cumsum": lambda: "SCumsum", "reverse": lambda: "SReverse",
+              "reverse_view": lambda: "SReverse", "ident": lambda: "SIdent",
+              "head": lambda: "(SHead %s)" % cnat(f[1]), "stride2": lambda: "SStride2"}[f[0]]()
         return "CRowS2S %s %s %s" % (ft, X, o)
     if k == "row_s2p":
-        return "CRowS2P %s %s %s" % ("PMean" if case["g"] == "mean" else "PWeighted", X, o)
+        return "CRowS2P %s %s %s" % ({"mean": "PMean", "weighted": "PWeighted",
+                                      "first": "PFirst"}[case["g"]], X, o)
     if k == "impute":
         m = {"mean": "IMean", "median": "IMedian", "ffill": "IFfill", "pad": "IFfill",
              "bfill": "IBfill", "backfill": "IBfill", "nearest": "INearest", "linear": "ILinear",
